@@ -106,6 +106,42 @@ class Abstractor:
             return t
 
 
+def nested_supertype_case(tb, ab, rng, tries=12):
+    """(target, pattern): target `K<.., a, ..>` where the argument `a` has a parameterized proper supertype `s`
+    in its last-supertype chain; the pattern has a pattern of `s` at that position"""
+    cons = list(tb.cons) + list(tb.builtin_cons)
+    if not cons:
+        return None
+    for _ in range(tries):
+        try:
+            t = tb.inst(rng.choice(cons), 2, False, ())
+        except Exception:
+            continue
+        if kind(t) != "p":
+            continue
+        cand = []
+        for i, a in enumerate(t.type_args):
+            if kind(a) == "w":
+                continue
+            sup = [s for s in ul.chain(a, False)[1:] if kind(s) == "p"]
+            if sup:
+                cand.append((i, sup))
+        if not cand:
+            continue
+        i, sup = rng.choice(cand)
+        args = []
+        for j, a in enumerate(t.type_args):
+            if j == i:
+                args.append(ab.pattern_of(rng.choice(sup), rng.choice([0.5, 0.8]), top=True))
+            else:
+                args.append(ab.comp(a, 0.3))
+        try:
+            return t, t.t_constructor.new(args)
+        except Exception:
+            continue
+    return None
+
+
 def gen_cases(rng, ntables, per_table):
     """(target, pattern, factory, same_type, stratum)"""
     import src.ir.types as tp
@@ -130,6 +166,15 @@ def gen_cases(rng, ntables, per_table):
                 s = rng.choice(ch)
                 p = ab.pattern_of(s, rng.choice([0.3, 0.6])) if kind(s) == "p" else ab.comp(s, 0.5)
                 cases.append((t, p, fac, False, "supertype-mode"))
+            elif r < 0.74:
+                # nested supertype: inside the pattern, one argument of the target is replaced by a pattern of
+                # one of that argument's PROPER supertypes (of another constructor).  The nested call of the
+                # argument loop is made in same-type mode, whatever the mode of the outer call: no match.
+                c = nested_supertype_case(tb, ab, rng)
+                if c is None:
+                    t = tb.ground(2, True, ())
+                    c = (t, ab.pattern_of(t, 0.5))
+                cases.append((c[0], c[1], fac, rng.random() < 0.35, "nested-supertype"))
             elif r < 0.8:
                 # a type variable as pattern (the three variable cases), targets of every kind
                 t = rng.choice(scope) if rng.random() < 0.5 else tb.any_type(2)
